@@ -36,7 +36,7 @@ def strictStr (raw : Bytes) : Bool :=
   let r := Wire.consumeString raw true
   r.2.2 == .ok && r.1 == raw.length
 
-def strOK (o : FOpts) : Tok → Bool
+def strOKV (o : FOpts) : Tok → Bool
   | .str raw => o.allowInvalidUTF8 || strictStr raw
   | _ => true
 
@@ -65,7 +65,7 @@ def namesOK (key : Bytes → Bytes) (ts : List Tok) : Bool :=
   | none => false
 
 def tokensOK (o : FOpts) (ts : List Tok) : Bool :=
-  ts.all (strOK o) && (o.allowDup || namesOK (nameKey o) ts)
+  ts.all (strOKV o) && (o.allowDup || namesOK (nameKey o) ts)
 
 /-- the tokenizer under the validation options -/
 def tokenizeV (o : FOpts) (b : Bytes) : Option (List Tok) :=
@@ -82,14 +82,14 @@ def respellStr (o : FOpts) (raw : Bytes) : Bytes :=
   if o.preserve && !o.html && !o.js then raw
   else (Quote.reformatString ⟨o.html, o.js, o.allowInvalidUTF8, o.preserve⟩ raw).1
 
-def respell (o : FOpts) : Tok → Tok
+def respellTok (o : FOpts) : Tok → Tok
   | .str raw => .str (respellStr o raw)
   | t => t
 
 /-- `Value.Format(opts…)` for the modelled options. -/
 def formatV (o : FOpts) (b : Bytes) : Option Bytes :=
   match tokenizeV o b with
-  | some ts => some (render o.ws (ts.map (respell o)))
+  | some ts => some (render o.ws (ts.map (respellTok o)))
   | none => none
 
 def FOpts.verbatim (o : FOpts) : Prop := o.preserve = true ∧ o.html = false ∧ o.js = false
